@@ -58,7 +58,7 @@ def read_case(path):
 class Prop:
     id = "C16"
     lean_module = "MuduoVerif.Props.C16"
-    gen_engines = ["LogFile", "AsyncLog"]
+    gen_engines = ["LogFile", "LogFileSkel", "AsyncLog"]
     drivers = ["logfile", "asynclog"]
     technique = ("Lean 4 invariant proofs over a pure-function model of LogFile/AppendFile and a thread-indexed transition "
                  "system of AsyncLogging + T1 extraction of every guard/constant + differential runs (T2 scripted clock and "
@@ -89,6 +89,9 @@ class Prop:
         "Lean 4.33.0 kernel; axioms allowed: propext, Classical.choice, Quot.sound",
         "vlib/extract.py + vlib/gen/logfile.py, vlib/gen/asynclog.py (clang-14 JSON AST -> Generated/LogFile.lean, "
         "Generated/AsyncLog.lean: guards, constants, and the statement sequence of every critical section / phase of AsyncLogging)",
+        "vlib/gen/logfileskel.py + vlib/logskel_common.py (same AST -> Generated/LogFileSkel.lean: statement skeletons of 11 "
+        "functions of LogFile.cc / FileUtil.cc) and the hand-written reading Model/LogFileSkelDecl.lean of Model/LogFile.lean "
+        "(which model term stands for which statement)",
         "hand-written Model/LogFile.lean and Model/AsyncLog.lean (meaning of one statement shape, control skeleton of "
         "threadFunc, FixedBuffer::append), tied by the differential runs",
         "harness/interpose.h, harness/stdio_interpose.h (link-level interposition of time/fopen/fwrite_unlocked/fflush/ferror/fclose)",
